@@ -69,6 +69,9 @@ def run(ctx, res):
     cases = [{"cfg": c, "configText": config_text(c), "schema": G.OPS_SCHEMA,
               "shapes": [s for s in sh if not (s["name"] == "oneAnonymous" and c["querySuffix"] == "")
                          and not (s["name"].startswith("sameName") and same_export_name(c))]} for c in cfgs]
+    # the loader instance of every second shape has served ANOTHER configuration before (the one half the list away: the options differ)
+    for i, c in enumerate(cases):
+        c["priorConfigText"] = cases[(i + len(cases) // 2 + 1) % len(cases)]["configText"]
     vlib.write_ndjson(ctx.path("cases.ndjson"), cases)
     vlib.run_harness(["exports", vlib.CLI_BIN, ctx.path("cases.ndjson"), ctx.path("events.ndjson"), ctx.path("proj"), "12"], timeout=3000)
     events = vlib.read_ndjson(ctx.path("events.ndjson"))
@@ -83,7 +86,8 @@ def run(ctx, res):
                 "{query,mutation,subscription,fragment}VariableSuffix in {unset,'','Doc'} (x exported result/variables types in "
                 "thorough): %d configurations, each applied to %d operation-file shapes (named / anonymous / two operations / "
                 "operation + lower- and upper-case fragments / fragments only / imported fragment / subscription / an operation and a local or imported fragment with the same name). The real CLI "
-                "writes the declaration files, the real loader ABI emits the module from the same configuration text; impl->spec: "
+                "writes the declaration files, the real loader ABI emits the module from the same configuration text (every second time on an instance "
+                "that loaded another configuration and emitted under it before); impl->spec: "
                 "Trace_C14 evaluates Exports!ExportItems (names subset, default present, same definition - via the source-map "
                 "segment of the declaring identifier, or the embedded document in standalone mode). Non-trivial = event with at "
                 "least one declared value export or default export." % (len(cfgs), len(sh)))
